@@ -322,6 +322,7 @@ impl SingleCheck {
         let rev1: Vec<u16> = tapes[1].iter().rev().copied().collect();
         let mut p = self.profile.clone();
         p.pct_wide = 0;
+        p.force_n = None;
         p.permille_huge = 0;
         p.pct_medium = 10;
         p.max_n = 12;
